@@ -258,6 +258,10 @@ type delivery struct {
 	module.Delivery
 	// Recipient addresses this delivery object is used for, original values (not modified by RewriteRcpt).
 	recipients []string
+	// Set by BodyNonAtomic if the message was not handed to the delivery
+	// object or its Body failed, all of its recipients got an error status
+	// then. Commit aborts such delivery instead of committing it.
+	bodyFailed bool
 }
 
 type msgpipelineDelivery struct {
@@ -451,6 +455,7 @@ func (sc statusCollector) SetStatus(rcptTo string, err error) {
 func (dd *msgpipelineDelivery) BodyNonAtomic(ctx context.Context, c module.StatusCollector, header textproto.Header, body buffer.Buffer) {
 	setStatusAll := func(err error) {
 		for _, delivery := range dd.deliveries {
+			delivery.bodyFailed = true
 			for _, rcpt := range delivery.recipients {
 				c.SetStatus(rcpt, err)
 			}
@@ -507,6 +512,7 @@ func (dd *msgpipelineDelivery) BodyNonAtomic(ctx context.Context, c module.Statu
 		}
 
 		if err := delivery.Body(ctx, header, body); err != nil {
+			delivery.bodyFailed = true
 			for _, rcpt := range delivery.recipients {
 				c.SetStatus(rcpt, err)
 			}
@@ -519,6 +525,14 @@ func (dd msgpipelineDelivery) Commit(ctx context.Context) error {
 
 	var commitErr error
 	for _, delivery := range dd.deliveries {
+		if delivery.bodyFailed {
+			// All recipients of this delivery were told that the message
+			// is not accepted, nothing to commit.
+			if err := delivery.Abort(ctx); err != nil {
+				dd.log.Debugf("delivery.Abort failure, Delivery object = %T: %v", delivery, err)
+			}
+			continue
+		}
 		if commitErr != nil {
 			// No point in Committing remaining deliveries, everything is
 			// broken already. They still have to be released though.
